@@ -377,7 +377,7 @@ async def history_cases(chk, rng, reps, count):
         dead = False
         for step in range(rng.randrange(2, 7)):
             op = rng.choice(["names", "names", "charset", "var-client", "var-results", "cu", "cu-none", "probe", "probe", "names-bad", "names-default", "multi",
-                             "reset"])
+                             "reset", "names-then-fail"])
             c0 = cl.cc
             if op in ("names", "names-bad"):
                 cs = rng.choice(UNUSABLE if op == "names-bad" else SWITCHABLE)
@@ -390,6 +390,16 @@ async def history_cases(chk, rng, reps, count):
                     cl.cc = cl.rc = cs
                 if (st == "ok") != (cs in REF):
                     chk.fail("SET NAMES accepted / rejected against the catalogue of usable sets", dict(sql=sql), st)
+            elif op == "names-then-fail":
+                # one COM_QUERY: a switch that is executed, then a statement that fails — the command is answered with ERR,
+                # but the switch happened (statements run in order, nothing is rolled back) and applies from the next command on
+                cs = rng.choice(SWITCHABLE)
+                _, out = await cl.query("SET NAMES %s; SET no_such_variable_xyz = 1" % cs)
+                st = classify_simple(out)
+                toks.append("S:N|%s|*" % cs)
+                if st == "ok":
+                    chk.fail("a command whose last statement fails is answered with OK", dict(history=hist, sql="SET NAMES %s; SET no_such_variable_xyz = 1" % cs), st)
+                cl.cc = cl.rc = cs
             elif op == "names-default":
                 _, out = await cl.query("SET NAMES DEFAULT")
                 st = classify_simple(out)
